@@ -98,7 +98,7 @@ class SyncRun:
     def __init__(self, *, backend: str = 'dict', init_flags=((), (), ()),
                  sessions=('a', 'b'), controlled: bool = True,
                  boxes=('Box',), world_kw: dict | None = None,
-                 claim_recent: bool = False):
+                 claim_recent=False, box_msgs: dict | None = None):
         self.w = World(backend, **(world_kw or {}))
         self.backend = backend
         self.sessions = list(sessions)
@@ -124,8 +124,19 @@ class SyncRun:
         for flags in init_flags:
             line, _ = concretise(('append', 'INBOX', 1, flags), self.msgno)
             w.cmd('z', line)
-        if claim_recent:
-            w.cmd('z', b'SELECT INBOX')
+        for b in (box_msgs or {}):
+            for _i in range(box_msgs[b]):
+                line, _ = concretise(('append', b, 1, ()), self.msgno)
+                w.cmd('z', line)
+        # which mailboxes' initial messages the setup session claims (\Recent consumed)
+        if claim_recent is True:
+            self._claimed_boxes = {'INBOX'}
+        elif not claim_recent:
+            self._claimed_boxes = set()
+        else:
+            self._claimed_boxes = set(claim_recent)
+        for b in sorted(self._claimed_boxes):
+            w.cmd('z', b'SELECT ' + b.encode())
             w.cmd('z', b'CLOSE')
         w.cmd('z', b'LOGOUT')
         for s in self.sessions:
@@ -141,7 +152,7 @@ class SyncRun:
             w.ck.controlled.update(self.sessions)
         self._known_uids = {}
         # the setup's messages: already claimed by the setup session's own SELECT or not
-        self._setup_claimed = claim_recent
+        self._setup_claimed = True
         self.collect('z')
         self._setup_claimed = False
 
@@ -267,7 +278,8 @@ class SyncRun:
                 new = uids - self._known_uids.get(o, set())
                 if new:
                     ev = {'e': 'arrive', 'dest': current.get(o, ''), 'obj': o,
-                          'uids': sorted(new), 'by': by, 'claimed': self._setup_claimed,
+                          'uids': sorted(new), 'by': by,
+                          'claimed': self._setup_claimed and current.get(o, '') in self._claimed_boxes,
                           'cids': [self.cid_of(data._messages[u]) for u in sorted(new)]}
                     self._cmd_arrivals.setdefault(by, []).append((o, data))
                     self.events.append(ev)
